@@ -145,7 +145,7 @@ SkipLnCfgs == {[fam |-> "skipln", dt |-> dt, skip |-> sk, skipshape |-> ss, bias
                 eps |-> e, miss |-> mi, B |-> z[1], S |-> z[2], D |-> z[3]] :
                dt \in DT, sk \in {"plain", "swap"}, ss \in {"full", "b1", "sd"},
                bo \in {<<"none", 0>>, <<"pre", 0>>, <<"pre", 1>>, <<"post", 0>>, <<"post", 1>>},
-               e \in (IF Big THEN {0, 2} ELSE {0}), mi \in {"none", "axispos", "axisabsent", "nobeta"}, z \in Sz3}
+               e \in (IF Big THEN {0, 2} ELSE {2}), mi \in {"none", "axispos", "axisabsent", "nobeta"}, z \in Sz3}
 GeluBias == {"none", "vec", "vecswap", "one", "row"}
 GeluCfgs == {[fam |-> "gelu", dt |-> dt, form |-> f, swap |-> sw, kconst |-> k, bias |-> b, B |-> 2, S |-> 3, D |-> d] :
              dt \in DT, f \in {"tanh", "erf_a", "erf_b", "erf_c"}, sw \in BOOL, k \in {0, 1}, b \in GeluBias,
